@@ -167,6 +167,16 @@ func TestC24(t *testing.T) {
 		inject := rng.IntN(2) == 0
 		if inject {
 			rv.failKey = dk[rng.IntN(len(dk))]
+			if rng.IntN(3) == 0 {
+				// the chain metadata keys are read from the parent too: a failing read there must fail the block as well
+				var mk []string
+				for k := range meta {
+					mk = append(mk, k)
+				}
+				sort.Strings(mk)
+				rv.failKey = mk[rng.IntN(len(mk))]
+				r.Count("blocks_with_injected_error_on_metadata_key", 1)
+			}
 		}
 		wit := map[string]any{"txs": describeAll(txs), "fail_key": kit.Hex([]byte(rv.failKey)), "cores": 0}
 		cfg := chainfx.ChainCfg{Cores: 1 + rng.IntN(8), Fetch: 1 + rng.IntN(16), SigWorkers: rng.IntN(3)}
@@ -196,7 +206,7 @@ func TestC24(t *testing.T) {
 		rv.mu.Unlock()
 		r.Count("parent_keys_read", nreads)
 		if inject && failRead && o.err == nil {
-			r.Violation("C24/read-error-not-fatal", wit, "a read of declared key %x failed but the block was executed successfully", rv.failKey)
+			r.Violation("C24/read-error-not-fatal", wit, "a read of key %x (declared by a transaction or chain metadata) failed but the block was executed successfully", rv.failKey)
 		}
 		if inject {
 			r.Count("blocks_with_injected_error", 1)
